@@ -11,8 +11,8 @@ use crate::refmodel::*;
 use crate::runner::*;
 use crate::tape::Tape;
 
-pub const RULE: &str = "arr_to_u64 / arr_to_i64 / arr_to_f64 on byte slices of length 0..9 compared with from_be_bytes-based reference decoders \
-(all slices of length <= 3, a bit lattice for lengths 3..9, proptest-random slices with uniform length), and u64/i64/f64 values \
+pub const RULE: &str = "arr_to_u64 / arr_to_i64 / arr_to_f64 on byte slices of length 0..16 compared with from_be_bytes-based reference decoders \
+(all slices of length <= 3, a bit lattice for lengths 3..16, proptest-random slices with uniform length), and u64/i64/f64 values \
 (boundary sets + random) written as one-element documents through TagWriter, the payload located with the reference header parser: minimal 1/2/4/8 width, \
 8-byte floats, and library decoder == reference decoder == original value (floats by bits). Non-trivial: slice length 0, 9, sign/width boundary, or any multi-byte slice; distinct by slice / value.";
 
@@ -132,6 +132,7 @@ fn pack(b: &[u8]) -> Vec<u64> {
 fn classify(b: &[u8], c: &mut Case) {
     c.label_if(b.is_empty(), "len0");
     c.label_if(b.len() == 9, "len9");
+    c.label_if(b.len() >= 10, "len10_to_16");
     c.label_if(b.len() == 4 || b.len() == 8, "float_len");
     c.label_if(!b.is_empty() && b[0] & 0x80 != 0, "negative");
     c.nontrivial = b.len() != 1;
@@ -166,7 +167,8 @@ fn st_block(i: &Input, c: &mut Case) -> Result<(), String> {
 
 fn lattice() -> Vec<Vec<u8>> {
     let mut v: Vec<Vec<u8>> = vec![vec![]];
-    for len in 1..=9usize {
+    // "an error otherwise" does not stop at 9 bytes: lengths up to 16 (a 10-byte "extended" float, a 16-byte integer) are slices too
+    for len in 1..=16usize {
         v.push(vec![0x00; len]);
         v.push(vec![0xFF; len]);
         let mut a = vec![0xFF; len];
@@ -193,7 +195,7 @@ fn lattice() -> Vec<Vec<u8>> {
 
 fn st_random_slice(i: &Input, c: &mut Case) -> Result<(), String> {
     let mut t = Tape::new(i.tape());
-    let len = t.below(10);
+    let len = if t.chance(1, 8) { 10 + t.below(7) } else { t.below(10) };
     let mut b = t.bytes(len);
     if len > 0 {
         match t.below(4) {
@@ -304,6 +306,7 @@ pub fn run(rc: &mut RunCtx) {
     rc.run_pt(STAGES[4], rc.pick(300_000, 4_000_000), (12, 12));
     rc.require_label("random_slices", "len0", 50_000);
     rc.require_label("random_slices", "len9", 50_000);
+    rc.require_label("random_slices", "len10_to_16", 50_000);
     rc.require_label("written_random", "sign_boundary", 10_000);
     rc.require_label("written_random", "width_boundary", 10_000);
     if !rc.quick() {
